@@ -488,6 +488,22 @@ theorem applyString_lig (l : Lookup) (hall : l.subtables.all Subtable.isLigature
     rw [hout0, hin0, List.nil_append]
     rfl
 
+/-! ### a lookup with one subtable -/
+
+theorem applySubtables_singleton (recurse : Ctx → Nat → M (Ctx × Bool)) (full : Bool) (c : Ctx) (st : Subtable) :
+    applySubtables recurse full c [st] = applySubtable recurse full c st := by
+  simp only [applySubtables, bind, Except.bind]
+  cases applySubtable recurse full c st with
+  | error e => rfl
+  | ok r =>
+    obtain ⟨c', ok⟩ := r
+    cases ok <;> rfl
+
+theorem firstSubtable_singleton (f : Font) (level props lm : Nat) (gs : List G) (i : Nat) (st : Subtable) :
+    firstSubtable f level props lm gs i [st] = applySubtableAt f level props lm st gs i := by
+  simp only [firstSubtable]
+  cases applySubtableAt f level props lm st gs i <;> rfl
+
 /-! ### decidable forms of the hypotheses (for the non-vacuity examples) -/
 
 instance (x : Info) : Decidable (Plain x) := by unfold Plain; exact inferInstance
